@@ -35,8 +35,13 @@ def check_block_header_proof(root_cell: "Cell", block_hash: bytes, store_state_h
     if root_hash != block_hash:
         raise ProofError('Block header proof error: hashes unmatch')
     if store_state_hash:
-        state_update = root_cell[2][1]
-        return state_update.get_hash(0)
+        update_cell = root_cell[2]
+        state_hash = update_cell[1].get_hash(0)
+        # the block hash covers the update cell's data (new_hash) and the children's level-1 hashes only: the level-0 hash
+        # read from the child is committed to by the block only if it is the new_hash recorded in the update cell itself
+        if update_cell.type_ != CellTypes.merkle_update or update_cell.data[33:65] != state_hash:
+            raise ProofError('Block header proof error: state update hash unmatch')
+        return state_hash
     return
 
 
